@@ -16,7 +16,8 @@ Inductive op :=
 | OMDecide (tmo : Z)           (* manual waiter: first region of AcquireConn found the pool full (harness-side), wantConn allocated *)
 | OMEnqueue (w : Z)            (* real queueForIdle(w) *)
 | OMCancel (w : Z)             (* real w.cancel(c, ErrNoFreeConns): the timer branch *)
-| OMTake (w : Z).              (* the ready branch: read w.conn / w.err *)
+| OMTake (w : Z)               (* the ready branch: read w.conn / w.err *)
+| OSetMax (n : Z).             (* SetMaxConns(n) at run time (the harness only raises the limit) *)
 
 Inductive view := VWaiting | VConn (c : Z) | VErr.
 Inductive res := SConn (c : Z) | SDialErr | SNoFree | STimeout | SOther.
@@ -35,6 +36,7 @@ Record obs := mkobs {
 
 Inductive c18case :=
 | CTrace (cf : cfg) (ops : list (op * obs))
+| CDo (max : Z) (cnt idle open max_open double_close : Z)   (* after a series of HostClient.Do calls against faulty conns, at rest *)
 | CStress (max : Z) (wait : bool)
           (max_live_strict max_live_lenient double_use final_cnt final_idle final_live bad_outcomes late : Z).
 
@@ -168,7 +170,11 @@ Definition run_op (cf : cfg) (x : cst) (o : op) : option (cst * list res) :=
   | OMEnqueue w => fin (step cf s (LEnqueue (zn w))) (autos x) (mans x) []
   | OMCancel w => fin (run_labels cf s [LTick; LTimeout (zn w)]) (autos x) (mans x) []
   | OMTake w => fin (step cf s (LTake (zn w))) (autos x) (mans x) []
+  | OSetMax _ => fin (Some s) (autos x) (mans x) []      (* the configuration changes, see [cfg_after] *)
   end.
+
+Definition cfg_after (cf : cfg) (o : op) : cfg :=
+  match o with OSetMax n => {| maxc := n; waiton := waiton cf; fifo := fifo cf |} | _ => cf end.
 
 Definition view_of (st : wstatus) : view * bool :=
   match st with
@@ -216,7 +222,7 @@ Fixpoint replay (cf : cfg) (x : cst) (ops : list (op * obs)) : bool :=
   | [] => true
   | (o, ob) :: r =>
       match run_op cf x o with
-      | Some (x', rets) => obs_eqb (project x' rets) ob && replay cf x' r
+      | Some (x', rets) => obs_eqb (project x' rets) ob && replay (cfg_after cf o) x' r
       | None => false
       end
   end.
@@ -224,6 +230,7 @@ Fixpoint replay (cf : cfg) (x : cst) (ops : list (op * obs)) : bool :=
 Definition corr_ok (c : c18case) : bool :=
   match c with
   | CTrace cf ops => replay cf {| ms := init; autos := []; mans := []; cic := None |} ops
+  | CDo _ _ _ _ _ _ => true                  (* RoundTrip's use of the pool is not in the pool model; judged by prop_ok only *)
   | CStress _ _ _ _ _ _ _ _ _ _ => true      (* schedules of the Go runtime are not predicted by the model; judged by prop_ok only *)
   end.
 
@@ -249,9 +256,19 @@ Definition obs_ok (cf : cfg) (o : op) (b : obs) : bool :=
   | _ => forallb (fun r => match r with SOther => false | _ => true end) (o_rets b)
   end.
 
+Fixpoint trace_ok (cf : cfg) (ops : list (op * obs)) : bool :=
+  match ops with
+  | [] => true
+  | (o, b) :: r => let cf' := cfg_after cf o in obs_ok cf' o b && trace_ok cf' r
+  end.
+
 Definition prop_ok (c : c18case) : bool :=
   match c with
-  | CTrace cf ops => forallb (fun p => obs_ok cf (fst p) (snd p)) ops
+  | CTrace cf ops => trace_ok cf ops
+  | CDo max cnt idle open max_open dbl =>
+      let m := if max <=? 0 then DefaultMaxConnsPerHost else max in
+      (* at rest: ConnsCount = idle conns = conns still open; never more than MaxConns open; nothing closed twice *)
+      (cnt =? idle) && (open =? idle) && (max_open <=? m) && (dbl =? 0)
   | CStress max wait strict lenient dbl fcnt fidle flive bad late =>
       let m := if max <=? 0 then DefaultMaxConnsPerHost else max in
       (strict <=? m) && (lenient <=? m) && (dbl =? 0) && (fcnt =? 0) && (fidle =? 0) && (flive =? 0) && (bad =? 0) && (late =? 0)
